@@ -22,7 +22,7 @@ func init() {
 		ID:          "C07",
 		Explanation: "RD: over doCompile's CFG every path performs exactly one fail/complete and no call (direct or deferred, other than (*task).release) can execute after it, so the recover handler can never complete a result twice. RG: the only goroutine of the package installs a deferred recover whose non-nil branch fails the result with a PanicError carrying the value. RF: all waits are ctx-cancellable and Compile defers cancel(). RB: publication by close.",
 		NotDecided:  "goroutine counts after return when a resolver never returns; behaviour of the resolver itself",
-		Rules:       []func(*World){rdCompiler, rgCompiler, rfCompiler, rbCompiler, rcCompile, reCompiler, rc11NotFoundFallsThrough},
+		Rules:       []func(*World){rdCompiler, rd3OutcomeWrittenWithClose, rgCompiler, rfCompiler, rbCompiler, rcCompile, reCompiler, rc11NotFoundFallsThrough},
 	})
 	register(&Property{
 		ID:          "C08",
@@ -52,7 +52,7 @@ func init() {
 		ID:          "C35",
 		Explanation: "R35: for every query type in experimental/incremental/queries, Key() returns the whole (comparable) query value, or every receiver field Execute reads flows into Key(). RH7: source.Opener.Open is called (outside package source) only from queries.File.Execute, the leaf that edits evict; everything else reaches file contents through Resolve, which records the dependency edge (RC6). RH4: query bodies run only through the executor.",
 		NotDecided:  "equality of outputs across edit histories; purity of the lowering code beyond the receiver/key discipline",
-		Rules:       []func(*World){r35Queries, rh7Queries, rh4Incremental, rcIncremental, rh5Incremental, rh5cEdgesRemovedOnlyByEviction},
+		Rules:       []func(*World){r35Queries, r35bKeyInjective, r35cNoCacheStateDependence, rh7Queries, rh4Incremental, rcIncremental, rh5Incremental, rh5cEdgesRemovedOnlyByEviction},
 	})
 	register(&Property{
 		ID:          "C36",
@@ -106,7 +106,7 @@ func init() {
 		ID:          "C17",
 		Explanation: "R17: effect summaries (commits to a guarded map / can fail with a collision, both transitive within linker/symbols.go; closures passed to walk.Descriptors count as loop bodies) are computed for every function in the call tree of (*Symbols).Import; any CFG-ordered pair (commit site, later fallible site) is reported, since a failure after a commit leaves the table changed. RA4b: within one critical section the commit helper is preceded by its conflict check, the handler verdict and the already-imported re-check.",
 		NotDecided:  "that a successful import records exactly the file's symbols",
-		Rules:       []func(*World){r17Import, ra4Symbols},
+		Rules:       []func(*World){r17Import, ra4Symbols, ra4fRollbackOwnsKeys},
 	})
 	register(&Property{
 		ID:          "C28",
